@@ -63,10 +63,10 @@ func init() {
 		okSum := false
 		for sc.Scan() {
 			var v struct {
-				Summary               bool
-				Kind, Name, Note      string
+				Summary                bool
+				Kind, Name, Note       string
 				Entities, Files, Types int64
-				Checks                int64
+				Checks                 int64
 			}
 			json.Unmarshal(sc.Bytes(), &v)
 			if v.Summary {
